@@ -3,7 +3,7 @@
    controller and the statuses on the objects equal what a freshly started controller derives from the final
    cluster state (both REAL; configuration compared canonically, statuses on the objects the fresh controller
    writes). Flags name history features that put a case into the class of a recorded finding. *)
-From Coq Require Import List String ZArith Bool Arith.
+From Coq Require Import List String Ascii ZArith Bool Arith.
 From NGF Require Export lib.CaseLib lib.Str k8s.State k8s.Spec ngx.Lexer ngx.Eval C04.Check C17.Check.
 Import ListNotations.
 Local Open Scope string_scope.
@@ -21,6 +21,25 @@ Record case := Case {
 }.
 
 Definition known_D12 := 12.
+Definition known_D31 := 31.
+
+(* class of finding D31: some Route references a Gateway of our class that is not the winning one (its backends are
+   resolved for its status, but their Services are not tracked as referenced) *)
+(* class of finding D31: every condition on which the two controllers differ is the ResolvedRefs condition of a
+   Route parent entry that both controllers report as Accepted=False/GatewayIgnored, i.e. the Route references a
+   Gateway of our class that is not the winning one (its backends are resolved for status, but their Services are
+   not tracked as referenced) *)
+Definition cond_head (x : string) : string :=
+  match split_on "|"%char x with
+  | a :: b :: _ => a ^^ "|" ^^ b ^^ "|"
+  | _ => x
+  end.
+Definition class_D31 (long fresh : list string) : bool :=
+  let diff := filter (fun x => negb (mem_str x fresh)) long ++ filter (fun x => negb (mem_str x long)) fresh in
+  negb (match diff with [] => true | _ => false end) &&
+  forallb (fun x => existsb (fun part => has_prefix "ResolvedRefs=" part) (split_on "|"%char x) &&
+                    mem_str (cond_head x ^^ "Accepted=False:GatewayIgnored") fresh &&
+                    mem_str (cond_head x ^^ "Accepted=False:GatewayIgnored") long) diff.
 
 Definition complaints (c : case) : list (nat * string) :=
   let cfg_ok := files_equal (k_long_files c) (k_long_matches c) (k_fresh_files c) (k_fresh_matches c) in
@@ -29,6 +48,8 @@ Definition complaints (c : case) : list (nat * string) :=
   else if has_mixed_group (k_final c) then [(code_known 33, "long-lived and fresh differ (finding D33: map-order dependent protocol)")]
   else if mem_str "endpointslice-delete" (k_flags c) && st_ok then
          [(code_known known_D12, "configuration differs after an EndpointSlice deletion (finding D12)")]
+  else if cfg_ok && class_D31 (k_long_conds c) (k_fresh_conds c) then
+         [(code_known known_D31, "statuses differ for a Route of an ignored Gateway (finding D31)")]
   else (if cfg_ok then [] else [(code_violation, "last applied configuration differs from a fresh controller's")]) ++
        (if st_ok then [] else [(code_violation, "statuses differ from a fresh controller's")]).
 
